@@ -94,12 +94,10 @@ def decimal(value: _decimal.Decimal) -> bytes:
     if not isinstance(value, _decimal.Decimal):
         raise TypeError('decimal.Decimal required, received {}'.format(
             type(value)))
-    tmp = str(value)
-    if '.' in tmp:
-        decimals = len(tmp.split('.')[-1])
-        value = value.normalize()
-        raw = int(value * (_decimal.Decimal(10)**decimals))
-        return struct.pack('>Bi', decimals, raw)
+    sign, digits, exponent = value.as_tuple()
+    if isinstance(exponent, int) and exponent < 0:
+        raw = int(''.join(str(digit) for digit in digits))
+        return struct.pack('>Bi', -exponent, -raw if sign else raw)
     return struct.pack('>Bi', 0, int(value))
 
 
